@@ -149,7 +149,7 @@ let rec cst (tk : string array) (pos : int ref) : cval =
 let scanners_agree (txt : n list) : bool =
   let len l = List.length l in
   match scan_number txt, string_to_number txt with
-  | JOk r, Ok0 p ->
+  | JOk r, Ok p ->
     let consumed rest = n_of_int (len txt - len rest) in
     (match r with
      | NumNaN -> p.p_kind = qn_nan
